@@ -134,6 +134,7 @@ class Gen:
         self.pairs = []
         self.plugin_pairs = []
         self.io_pairs = []
+        self.ledger_chains = {}
         self.helper_fns = set()
 
     def w(self, s=""):
@@ -420,6 +421,13 @@ class Gen:
         tail += ["", "pub fn abi_pairs() -> Vec<AbiPair> {", "    let mut v: Vec<AbiPair> = Vec::new();"]
         tail += self.pairs
         tail += ["    v", "}"]
+        tail += ["", "/// per family: the interface of each version, in order, checked against one ledger directory",
+                 "#[allow(clippy::type_complexity)]",
+                 "pub fn ledger_chains() -> Vec<(&'static str, Vec<fn(&str) -> Result<(), String>>)> {",
+                 "    let mut v: Vec<(&'static str, Vec<fn(&str) -> Result<(), String>>)> = Vec::new();"]
+        for fam, steps in self.ledger_chains.items():
+            tail.append('    v.push(("%s", vec![%s]));' % (fam, ", ".join(steps)))
+        tail += ["    v", "}"]
         tail += ["", "/// (family, i, j, run): data of version i loaded by the definition of version j through faulty readers",
                  "#[allow(clippy::type_complexity)]",
                  "pub fn iofault_pairs() -> Vec<(&'static str, u32, u32, fn(&mut Rng, usize) -> Vec<String>)> {",
@@ -642,6 +650,12 @@ def families():
         [S("T", [F("a", "u16"), F("b", "u16", ver=(0, 0), removed="AbiRemoved"), F("c", "u32")], repr="C")],
         [S("T", [F("a", "u16"), F("b", "u16", ver=(0, 0), removed="AbiRemoved"), F("c", "u32"), F("d", "u64", ver=(2, None))], repr="C")],
     ]))
+    # every field retired: the current struct is zero-sized in memory, its older versions are not empty on the wire
+    fams.append(("FamAllRetired", [
+        [S("T", [F("a", "u16"), F("b", "u8")])],
+        [S("T", [F("a", "u16", ver=(0, 0), removed="AbiRemoved"), F("b", "u8")])],
+        [S("T", [F("a", "u16", ver=(0, 0), removed="AbiRemoved"), F("b", "u8", ver=(0, 1), removed="AbiRemoved")], tags=("zstseq",))],
+    ]))
     fams.append(("FamConvert", [
         [S("T", [F("a", "u16"), F("b", "u8")])],
         [S("T", [F("a", "u32", ver=(1, None), as_=[(0, 0, "u16", 0)]), F("b", "u8")])],
@@ -850,7 +864,8 @@ def write_plugins(plugins):
                     "impl I%s for P%s {" % (fam, fam),
                     "    fn echo(&self, a: %s::T, b: &%s::T, seed: u64) -> %s::T { self.0.echo(a, b, seed) }" % (m, m, m),
                     "    fn twice(&self, a: &%s::T, b: %s::T) -> (%s::T, %s::T) { self.0.twice(a, b) }" % (m, m, m, m),
-                    "    fn with_cb(&self, a: %s::T, cb: &dyn Fn(%s::T) -> %s::T) -> %s::T { self.0.with_cb(a, cb) }" % (m, m, m, m)]
+                    "    fn with_cb(&self, a: %s::T, cb: &dyn Fn(%s::T) -> %s::T) -> %s::T { self.0.with_cb(a, cb) }" % (m, m, m, m),
+                    "    fn later(&self, a: %s::T) -> std::pin::Pin<Box<dyn std::future::Future<Output = %s::T>>> { self.0.later(a) }" % (m, m)]
             if k >= 1:
                 src += ["    fn added_v1(&self, x: u32) -> u32 { self.0.added_v1(x) }"]
             src += ["}", "savefile_abi_export!(P%s, I%s);" % (fam, fam), ""]
@@ -878,7 +893,7 @@ def main():
         g.emit_item(t)
         g.register(t.name, t.name, t)
     plugins = {}   # version index -> families with an interface at that version
-    downgradable = {"FamAdd", "FamAbiRemove", "FamNested", "FamAddPacked", "FamAbiNested"}
+    downgradable = {"FamAdd", "FamAbiRemove", "FamNested", "FamAddPacked", "FamAbiNested", "FamAllRetired"}
     for fam, versions in families():
         nver = len(versions)
         for k, items in enumerate(versions):
@@ -887,7 +902,7 @@ def main():
             g.w("use super::*;")
             for t in items:
                 t.versions = list(range(0, k + 1))
-                t.containers = ("vec",) if t.name == "T" else ()
+                t.containers = (("vec", "arr") if fam == "FamAllRetired" else ("vec",)) if t.name == "T" else ()
                 if fam in downgradable:
                     t.tags = list(t.tags) + ["downgradable"]
                 g.emit_item(t, prefix=mod + "_")
@@ -900,6 +915,7 @@ def main():
                 g.w("    fn echo(&self, a: T, b: &T, seed: u64) -> T;")
                 g.w("    fn twice(&self, a: &T, b: T) -> (T, T);")
                 g.w("    fn with_cb(&self, a: T, cb: &dyn Fn(T) -> T) -> T;")
+                g.w("    fn later(&self, a: T) -> std::pin::Pin<Box<dyn std::future::Future<Output = T>>>;")
                 if k >= 1:
                     g.w("    fn added_v1(&self, x: u32) -> u32;")
                 g.w("}")
@@ -930,9 +946,12 @@ def main():
                 g.w("        crate::abicall::observe(vec![a.sx(true), y.sx(true)], vec![x_sx, ret.sx(false)]);")
                 g.w("        ret")
                 g.w("    }")
+                g.w("    fn later(&self, a: T) -> std::pin::Pin<Box<dyn std::future::Future<Output = T>>> { Box::pin(async move { a }) }")
                 if k >= 1:
                     g.w("    fn added_v1(&self, x: u32) -> u32 { x.wrapping_add(1) }")
                 g.w("}")
+                g.ledger_chains.setdefault(fam, []).append(
+                    '|dir| savefile_abi::verify_compatiblity::<dyn %s::I%s>(dir).map_err(|e| crate::suite::err_class(&e))' % (mod, fam))
                 plugins.setdefault(k, []).append(fam)
             g.w("}")
         for i in range(nver):
